@@ -6,4 +6,5 @@ INVARIANT KillBeforeStart
 INVARIANT KillAfterBodyNoEffect
 INVARIANT ConfinedToBody
 INVARIANT NoPendingAfterFinish
+INVARIANT FlagBeforeLockMeansNoBody
 PROPERTY Termination
